@@ -77,7 +77,9 @@ func (m *TrieStore) Seek(rng storage.SeekRange, f func(k, v []byte) bool) {
 		// Failed to determine the start node => no matching items.
 		return
 	}
-	path = path[len(prefixP):]
+	// The path can be a key of an extension node of the trie itself,
+	// traversal appends to it.
+	path = slices.Clone(path[len(prefixP):])
 
 	if len(fromP) > 0 {
 		if len(path) <= len(fromP) && bytes.HasPrefix(fromP, path) {
